@@ -26,6 +26,9 @@ CFG2N = [(2,1,2,7),(2,1,2,102),(2,1,1,43),                # two producers: multi
 CFG2S = [(2,1,2,52),                                      # two producers in the second session of a re-configured pipe
          (1,1,2,71),(2,2,3,170)]                          # second pipe with the larger buffers; initialize() first
 TS1 = [(2,1,2,5),(2,1,2,7)]                               # TSan lane at bound 1 in the quick tier too (locked multi-part records against a second producer and the timed flush)
+Q3 = [(2,1,2,1)]                                         # quick tier: this one configuration ALSO at the thorough bound 3 (50 k executions). A re-ordering around the timed flush costs
+                                                          # three deviations with one producer: the producer preempted between two appends, the timer expiry, and the background
+                                                          # thread preempted between detaching the partial buffer and publishing it (wave 9, seed C10-9: missed at bound 2)
 Q1 = [(2,2,3,10)]                                         # quick tier: this base configuration one bound lower (pays for the round-2 lanes)
 def minus(a, b): return [x for x in a if x not in b]
 # spurious condition-variable wake-ups (engine S option SCHED_SPURIOUS=1: one per execution, counted as a deviation) where a producer blocks at the buffer limit
@@ -46,10 +49,10 @@ def main(tier, args):
         b1, b2, b3, dl = 2, 1, 0, 90
         jobs = (cmds(plain, minus(CFG1, Q1), 2, "plain", o) + cmds(plain, CFG2, 1, "plain", o) + cmds(plain, CFG3, 0, "plain", o)
                 + cmds(plain, Q1 + CFG1N + CFG1S, 1, "plain", o) + cmds(plain, CFG2N, 1, "plain", o) + cmds(plain, CFG2S, 0, "plain", o)
-                + cmds(plain, SPUR1, 1, "plain-spur", o, SP)
+                + cmds(plain, SPUR1, 1, "plain-spur", o, SP) + cmds(plain, Q3, 3, "plain-b3", o)
                 + cmds(asan, CFG1 + CFG1N, 1, "asan", o) + cmds(asan, CFG2 + CFG1S + CFG2N + CFG2S + CFG3, 0, "asan", o)
                 + cmds(tsan, CFG1[:4] + TS1, 1, "tsan", o) + cmds(tsan, CFG1[4:] + minus(CFG2 + CFG2N, TS1) + CFG1N + CFG1S + CFG2S + CFG3, 0, "tsan", o))
-        base = "<= 2 (1 producer; (2,2,3) two-session: 1)"
+        base = "<= 2 (1 producer; (2,2,3) two-session: 1; (2,1,2) with the pattern 1 byte / exactly one buffer / 1 byte additionally <= 3)"
         newb = "<= 1 (1 producer, and 1 producer + second pipe (2,1,2); the other second-pipe ones and the two-producer second session of a re-configured pipe: 0)"
         nsp, spb, ba = len(SPUR1), "1", 1
         bt = "<= 1 on 4 one-producer and 2 two-producer configurations, 0 on all others"
